@@ -44,6 +44,18 @@ pub mod sync {
     #[derive(Debug)]
     pub struct AtomicPtr<T>(std::sync::atomic::AtomicPtr<T>);
 
+    impl<T> Default for AtomicPtr<T> {
+        fn default() -> Self {
+            Self::new(std::ptr::null_mut())
+        }
+    }
+
+    impl<T> From<*mut T> for AtomicPtr<T> {
+        fn from(p: *mut T) -> Self {
+            Self::new(p)
+        }
+    }
+
     impl<T> AtomicPtr<T> {
         pub fn new(p: *mut T) -> Self {
             Self(std::sync::atomic::AtomicPtr::new(p))
@@ -56,6 +68,33 @@ pub mod sync {
         pub fn load(&self, order: Ordering) -> *mut T {
             call_hook(Op::Load);
             self.0.load(order)
+        }
+
+        pub fn store(&self, p: *mut T, order: Ordering) {
+            call_hook(Op::CompareExchange);
+            self.0.store(p, order)
+        }
+
+        pub fn swap(&self, p: *mut T, order: Ordering) -> *mut T {
+            call_hook(Op::CompareExchange);
+            self.0.swap(p, order)
+        }
+
+        pub fn into_inner(self) -> *mut T {
+            self.0.into_inner()
+        }
+
+        pub fn fetch_update<F>(
+            &self,
+            set_order: Ordering,
+            fetch_order: Ordering,
+            f: F,
+        ) -> Result<*mut T, *mut T>
+        where
+            F: FnMut(*mut T) -> Option<*mut T>,
+        {
+            call_hook(Op::CompareExchange);
+            self.0.fetch_update(set_order, fetch_order, f)
         }
 
         pub fn compare_exchange(
